@@ -388,6 +388,100 @@ func TestC19(t *testing.T) {
 		p.Close()
 		c.ShutdownAsync()
 	}
+	// Destroy as the FIRST request a member ever sees for a DMap (a member keeps a registry of the DMaps it has handled, filled on
+	// demand): three members, two copies; the keys of a fresh DMap are written through the embedded client of their owner and
+	// live on members other than the one that serves the Destroy - over raw RESP, or through a cluster client (which picks any
+	// member).  Afterwards every key reads not-found through every member and no fragment holds anything (white box).
+	for r := 0; r < envInt("VERIF_C19_FIRSTCONTACT", 4); r++ {
+		c, err := cluster.Start(cluster.Options{Replicas: 2, Partitions: 13, Manual: true}, 3)
+		if err != nil {
+			t.Fatal(err)
+		}
+		seq++
+		d := fmt.Sprintf("fcd%d", r)
+		entry := r % 3
+		w.Emit(trace.Ev{"t": "reset", "seq": seq, "cfg": fmt.Sprintf("N=3 R=2, Destroy served by member %d, which has never handled the DMap", entry)})
+		// keys whose owner and backup owner are the two OTHER members
+		var ks []string
+		for i := 0; len(ks) < 6 && i < 2000; i++ {
+			k := fmt.Sprintf("fk%d", i)
+			o, _ := c.OwnerOf(c.Live()[0], d, k)
+			ok := o != nil && o.Index != entry
+			for _, b := range c.BackupsOf(c.Live()[0], d, k) {
+				if b.Index == entry {
+					ok = false
+				}
+			}
+			if ok {
+				ks = append(ks, k)
+			}
+		}
+		embs := map[int]Path{}
+		for _, m := range c.Live() {
+			embs[m.Index] = Embedded(m)
+		}
+		for _, k := range ks {
+			o, _ := c.OwnerOf(c.Live()[0], d, k)
+			rep := embs[o.Index].Put(ctx, d, k, "v-"+k, PutOpts{})
+			w.Emit(trace.Ev{"t": "op", "op": "put", "d": d, "k": k, "v": "v-" + k, "ret": rep.Ret, "detail": rep.Err, "path": embs[o.Index].Name()})
+			sum.Evaluations++
+		}
+		var rep Reply
+		via := ""
+		if r%2 == 0 {
+			rp := Resp(c.Members[entry]).(*respPath)
+			rep = classify(rp.rc.Do(ctx, "dm.destroy", d).Err())
+			via = rp.Name()
+			rp.Close()
+		} else {
+			cc, err := olric.NewClusterClient([]string{c.Members[entry].Name})
+			if err != nil {
+				t.Fatal(err)
+			}
+			dm, err := cc.NewDMap(d)
+			if err != nil {
+				t.Fatal(err)
+			}
+			rep = classify(dm.Destroy(ctx))
+			via = "cluster client"
+			cc.Close(ctx)
+		}
+		w.Emit(trace.Ev{"t": "op", "op": "destroy", "d": d, "k": "", "v": "", "ret": rep.Ret, "detail": rep.Err, "path": via})
+		sum.Evaluations++
+		// white box first, then the reads
+		st := []string{}
+		for _, m := range c.Live() {
+			for pid := uint64(0); pid < 13; pid++ {
+				for _, kind := range []partitions.Kind{partitions.PRIMARY, partitions.BACKUP} {
+					for _, e := range m.V.DMap.VerifEntries(d, pid, kind) {
+						st = append(st, e.Key)
+					}
+				}
+			}
+		}
+		sort.Strings(st)
+		gets := []trace.Ev{}
+		for _, k := range ks {
+			for _, m := range c.Live() {
+				g := embs[m.Index].Get(ctx, d, k)
+				v := "nil"
+				if g.Ret == "val" {
+					v = g.V
+				} else if g.Ret != "notfound" {
+					v = "error:" + g.Ret
+				}
+				gets = append(gets, trace.Ev{"k": k, "v": v, "path": embs[m.Index].Name()})
+			}
+		}
+		w.Emit(trace.Ev{"t": "obs", "d": d, "gets": gets, "scan": uniq(st), "stored": uniq(st), "after": "Destroy served by a member that had never handled the DMap"})
+		sum.Evaluations++
+		sum.Histories++
+		sum.DistinctNontrivial++
+		for _, e := range embs {
+			e.Close()
+		}
+		c.ShutdownAsync()
+	}
 	// The counterexample of FragLife_byname.cfg forced on a real member ("the DMap remains usable for new writes"): the
 	// janitor has picked up a fragment that is empty and waits for its lock (held by a Delete of a missing key that is parked
 	// at del.locked); Destroy wipes that fragment (it does not take the lock); a Put creates the next fragment and is
@@ -465,4 +559,15 @@ func TestC19(t *testing.T) {
 		t.Fatal(err)
 	}
 	writeSummary(t, out, "c19.summary.json", sum)
+}
+
+// uniq returns the distinct elements of a sorted list.
+func uniq(xs []string) []string {
+	out := []string{}
+	for i, x := range xs {
+		if i == 0 || x != xs[i-1] {
+			out = append(out, x)
+		}
+	}
+	return out
 }
